@@ -102,6 +102,12 @@ func (c *simpleContainer) push(tx *types.Transaction) {
 	}
 }
 
+// pushAnyway stores the transaction whatever the size of the container
+func (c *simpleContainer) pushAnyway(tx *types.Transaction) {
+	c.data.Set(tx.Hash, tx)
+	c.txAnnualRingMap.Store(tx.Hash, uint64(0))
+}
+
 func (c *simpleContainer) remove(txHashList []interface{}) {
 	c.data.Removes(txHashList)
 	for _, item := range txHashList {
